@@ -212,13 +212,14 @@ PROPS = {
     },
     "C32": {
         "level": "proof",
-        "verus": ["smith_names"],
-        "explanation": "KERNEL ONLY: DocumentBuilder::type_name, from which every generated type definition gets its name. Verus proves on the extracted body that the returned name is not among the type names used so far "
+        "verus": ["smith_names", "smith_keywords"],
+        "explanation": "TWO KERNELS: DocumentBuilder::limited_string, the source of every generated name: what it returns is non-empty and not a reserved word AFTER its trailing underscores were trimmed (unit smith_keywords); "
+                       "DocumentBuilder::type_name, from which every generated type definition gets its name. Verus proves on the extracted body that the returned name is not among the type names used so far "
                        "(including those recorded from a parsed schema) and that it is recorded as used; on failure of the randomness source nothing is recorded.",
-        "assumptions": ["HashSet<String> behaves as a set of texts; limited_string is opaque; the candidate text `{base}{suffix}` is opaque (write! shim)",
+        "assumptions": ["smith_keywords: the byte generator inside limited_string is replaced by an opaque call (any string); trim_end_matches / is_empty / to_string / slice contains have their std meaning", "HashSet<String> behaves as a set of texts; in type_name limited_string is opaque; the candidate text `{base}{suffix}` is opaque (write! shim)",
                         "the loop tries fewer than 2^64 candidates (explicit shim in front of `suffix += 1`; with termination it needs a pigeonhole argument over the finite set of used names: not proved)"],
         "not_decided": ["the property as stated: for every input byte string the WHOLE generator returns a document that parses without syntax errors and validates; determinism; operations valid against a parsed schema",
-                        "termination of type_name's loop"],
+                        "termination of type_name's and limited_string's loops; that limited_string's characters are name characters"],
     },
     "C33": {
         "level": "proof",
